@@ -1,7 +1,47 @@
 import H4.Codecs
+import H4.Gen.Fn.Dfrle
 import H4.Driver.Util
 namespace H4.Driver
 open H4.Codecs
+
+/- function-level Tie A cross-run: `DFCIrle` / `DFCIunrle` as TRANSLATED from dfrle.c by gen/c2lean.py (`H4.Gen.Fn.Dfrle`) are executed on
+    the same arguments as the hand-written model; a difference (or `ub` / `oof` of the translated code) is appended as ` GEN=…`
+    and so shows up as a DIFF against the real C (`H4.Props.C15Fn` proves that no such difference exists). -/
+namespace GenDfrle
+def ints (l : List Byte) : List Int := l.map fun b => (b.toNat : Int)
+/-- `none` if a cell does not hold a `uint8` value -/
+def toBytes (l : List Int) : Option (List Byte) :=
+  if l.all (fun x => decide (0 ≤ x ∧ x < 256)) then some (l.map fun x => UInt8.ofNat x.toNat) else none
+def hex (l : List Int) : String := match toBytes l with | some b => toHex b | none => "range"
+def tag (model : String) (ub oof : Bool) (gen : String) : String :=
+  if ub then s!"{model} GEN=ub" else if oof then s!"{model} GEN=oof" else if gen == model then model else s!"{model} GEN={gen}"
+/-- `DFCIrle(row, enc, n)` into a buffer of the size `DFputcomp` allocates (`n * 121 / 120 + 1`, pre-filled with 0xA5) -/
+def enc (bs : List Byte) (model : String) : String :=
+  let n := bs.length
+  let s := H4.Gen.Fn.Dfrle.DFCIrle (n + 1) (ints bs) (List.replicate (n * 121 / 120 + 1) 0xA5) n
+  tag model s.ub s.oof (hex (s.bufto.take s.ret.toNat))
+/-- `DFCIunrle(in, out, n, 1)`; a model `fail` (the packets run past the end of `in`) must be `ub` in the translated code -/
+def dec (bs : List Byte) (n : Nat) (model : String) : String :=
+  let s := H4.Gen.Fn.Dfrle.DFCIunrle (bs.length + 256) (ints bs) (List.replicate n 0xA5) n 1 (List.replicate 255 0) 0 0
+  if model == "fail" then (if s.ub then model else s!"{model} GEN=no-ub")
+  else tag model s.ub s.oof (hex (s.bufto.take n) ++ " " ++ toString s.ret)
+/-- the `DFgetcomp` row loop: `resetsave` for the first call only, static state and input position carried from call to call -/
+def rowsGo (fuel : Nat) (save : List Int) (ss se : Int) (buf : List Byte) (first : Bool) (used : Nat) :
+    List Nat → Option (List String × Nat) ⊕ String
+  | [] => .inl (some ([], used))
+  | n :: rest =>
+    let s := H4.Gen.Fn.Dfrle.DFCIunrle fuel (ints buf) (List.replicate n 0xA5) n (if first then 1 else 0) save ss se
+    if s.ub then .inr "ub" else if s.oof then .inr "oof"
+    else match rowsGo fuel s.save s.savestart s.saveend (buf.drop s.ret.toNat) false (used + s.ret.toNat) rest with
+      | .inl (some x) => .inl (some (hex (s.bufto.take n) :: x.1, x.2))
+      | .inl none => .inl none
+      | .inr e => .inr e
+def rows (bs : List Byte) (ns : List Nat) (model : String) : String :=
+  match rowsGo (bs.length + 256) (List.replicate 255 0) 0 0 bs true 0 ns with
+  | .inr e => if model == "fail" && e == "ub" then model else s!"{model} GEN={e}"
+  | .inl (some (rs, used)) => tag model false false (",".intercalate rs ++ " " ++ toString used)
+  | .inl none => tag model false false "fail"
+end GenDfrle
 
 /-- engine `dfrle` (stateless), the real `DFCIrle`/`DFCIunrle` of dfrle.c:
     `enc <row>` => compressed bytes;
@@ -10,12 +50,12 @@ open H4.Codecs
 def stepDfrle (args : List String) : String :=
   match args with
   | ["enc", d] => match parseHex d with
-    | some bs => toHex (DFCIrle bs)
+    | some bs => GenDfrle.enc bs (toHex (DFCIrle bs))
     | none => "bad-op"
   | ["dec", d, n] => match parseHex d, parseNat n with
-    | some bs, some n => match DFCIunrleS [] bs n true with
+    | some bs, some n => GenDfrle.dec bs n (match DFCIunrleS [] bs n true with
       | some r => toHex r.out ++ " " ++ toString r.used
-      | none => "fail"
+      | none => "fail")
     | _, _ => "bad-op"
   | ["rows", d, ns] => match parseHex d, natList ns with
     | some bs, some ns =>
@@ -24,9 +64,9 @@ def stepDfrle (args : List String) : String :=
         | n :: rest => match DFCIunrleS save buf n first with
           | none => none
           | some r => (go r.save (buf.drop r.used) false (used + r.used) rest).map fun x => (toHex r.out :: x.1, x.2)
-      match go [] bs true 0 ns with
+      GenDfrle.rows bs ns (match go [] bs true 0 ns with
       | some (rows, used) => ",".intercalate rows ++ " " ++ toString used
-      | none => "fail"
+      | none => "fail")
     | _, _ => "bad-op"
   | _ => "bad-op"
 
